@@ -686,6 +686,12 @@ func goDecode(netcompat bool, buf []byte) decObs {
 			o.line = "unknowntype " + vh.Hex(id[:])
 		case "badbody":
 			o.line = "badbody " + vh.Hex(id[:]) + " " + kind
+		case "toosmall":
+			o.line = "toosmall"
+			if (id != discover.NodeID{}) { // errPacketTooSmall after authentication (signed data shorter than type + tag)
+				o.line = "toosmallbody " + vh.Hex(id[:])
+				o.class = "toosmallbody"
+			}
 		default:
 			o.line = class
 		}
